@@ -10,14 +10,16 @@ cd $W && git checkout -q --detach $(git -C /repo rev-parse HEAD) && git checkout
 for name in "$@"; do
   d=/verif/seeded/$name
   feat=""; grep -q "verif-hooks\|rodbus::verif" $d/demo.rs && feat="--features verif-hooks"
-  git checkout -q -- . ; rm -rf rodbus/tests
+  pkg=rodbus; tdir=rodbus/tests
+  if grep -q '"property": "C1[89]"' $d/meta.json; then pkg=rodbus-ffi; tdir=ffi/rodbus-ffi/tests; feat=""; fi
+  git checkout -q -- . ; rm -rf rodbus/tests ffi/rodbus-ffi/tests
   git apply $d/patch.diff || { echo "{\"applies\": false}" > $d/verified.json; continue; }
   cargo test --workspace --no-fail-fast --offline > $W/suite.log 2>&1; suite_rc=$?
-  mkdir -p rodbus/tests && cp $d/demo.rs rodbus/tests/demo.rs
-  cargo test -p rodbus --offline $feat --test demo > $W/demo_with.log 2>&1; with_rc=$?
+  mkdir -p $tdir && cp $d/demo.rs $tdir/demo.rs
+  cargo test -p $pkg --offline $feat --test demo > $W/demo_with.log 2>&1; with_rc=$?
   git checkout -q -- . 
-  cargo test -p rodbus --offline $feat --test demo > $W/demo_without.log 2>&1; without_rc=$?
-  rm -rf rodbus/tests
+  cargo test -p $pkg --offline $feat --test demo > $W/demo_without.log 2>&1; without_rc=$?
+  rm -rf rodbus/tests ffi/rodbus-ffi/tests
   passed=$(grep -h "test result: ok" $W/suite.log | sed 's/.*ok\. \([0-9]*\) passed.*/\1/' | paste -sd+ | bc)
   echo "{\"applies\": true, \"existing_suite_rc_with_patch\": $suite_rc, \"existing_tests_passed_with_patch\": ${passed:-0}, \"demo_rc_with_patch\": $with_rc, \"demo_rc_without_patch\": $without_rc, \"repo_head\": \"$(git -C /repo rev-parse --short HEAD)\"}" > $d/verified.json
   echo "$name: suite_rc=$suite_rc passed=$passed demo_with=$with_rc demo_without=$without_rc"
